@@ -135,7 +135,9 @@ PINNED = ['```\n```\n', '~~~\n\n~~~\n', '    a\n      \n    b\n', '```\n  \n```\
 # lines that look like a setext underline but are content: lazy continuation lines and lines indented four or more columns, in
 # paragraphs and in the content of setext headings (written back at the content offset they would end the block there)
 UNDERLINE_LIKE = ['> foo\n===\n> ---\n', '- foo\n===\n  ---\n', 'Foo\n    ---\n', '> foo\nbar\n===\n', 'a\n    ===\nb\n---\n', 'a\n    ---\nb\n===\n',
-                  '> a\n---\n> ===\n', '1. x\n===\n   y\n   ===\n', '> > q\n===\n> > ---\n', '- a\n      -\n  b\n  -\n']
+                  '> a\n---\n> ===\n', '1. x\n===\n   y\n   ===\n', '> > q\n===\n> > ---\n', '- a\n      -\n  b\n  -\n',
+                  # ... and a thematic break that starts an item after the marker's own line: joined to the marker it is one break
+                  '-\n  - - -\n', '*\n  ***\n\n  x\n', '- a\n-\n  ---\n', '-\n  -\n    - -\n', '> -\n>   -- -\n', '1. -\n     - -\n']
 
 
 def run(ctx):
